@@ -1,6 +1,7 @@
 package main
 
 import (
+	"bytes"
 	"fmt"
 	"math/rand"
 	"strings"
@@ -118,6 +119,9 @@ func init() {
 			}
 			// a piece whose instances YAML is larger than a mebibyte goes through the pipe whole
 			cases = append(cases, Case{"cmd": "bigpipe", "n": 24000})
+			// one physical line of the instances YAML longer than any line buffer: a 70 000-byte text, a 70 000-byte comment
+			cases = append(cases, Case{"cmd": "bigline", "how": "text", "n": 70000}, Case{"cmd": "bigline", "how": "comment", "n": 70000},
+				Case{"cmd": "bigline", "how": "text", "n": 65536}, Case{"cmd": "bigline", "how": "comment", "n": 1 << 20})
 			return cases
 		},
 		Exec: func(c *Ctx, k Case) []Rec {
@@ -228,6 +232,38 @@ func init() {
 					if len(f.TrackLen) > 0 {
 						rec["eot"] = f.TrackLen[0]
 					}
+				}
+				return []Rec{rec}
+			case "bigline":
+				n, how := ci(k, "n"), cs(k, "how")
+				long := strings.Repeat("x", n)
+				text := "C[1] G[1] Am[1] F[1]\n"
+				if how == "text" {
+					text = "C[1]{txt=" + long + "} G[1] Am[1] F[1]\n"
+				}
+				r1 := c.crdEnv([]string{"text", "conv", "syllable"}, []byte(text), nil, 60*time.Second)
+				y := r1.Stdout
+				if how == "comment" { // a comment line between the first and the second instance
+					if i := bytes.Index(y[1:], []byte("\n- ")); i >= 0 {
+						y = append(append(append([]byte{}, y[:i+2]...), []byte("# "+long+"\n")...), y[i+2:]...)
+					}
+				}
+				rec := Rec{"kind": "bigline", "sub": fmt.Sprint(how, n), "how": how, "n": n, "convOk": r1.Exit == 0 && len(r1.Stdout) > 0, "writeOk": false, "ons": 0, "eot": 0, "texts": []int{}}
+				if rec["convOk"] == true {
+					r2 := c.crdEnv([]string{"write"}, y, nil, 60*time.Second)
+					f := smf.Parse(r2.Stdout)
+					rec["writeOk"] = r2.Exit == 0 && f.Err == "" && len(r2.Stdout) > 0
+					rec["ons"] = len(noteOns(f))
+					if len(f.TrackLen) > 0 {
+						rec["eot"] = f.TrackLen[0]
+					}
+					tl := []int{}
+					for _, e := range f.Events {
+						if e.Kind == smf.KindMeta && e.A == 1 {
+							tl = append(tl, len(e.Data))
+						}
+					}
+					rec["texts"] = tl
 				}
 				return []Rec{rec}
 			case "cmt":
